@@ -7,5 +7,6 @@ CONSTANTS
   EmitCases = TRUE
   RefuseDotNames = FALSE
   RefuseOPathCreate = TRUE
+  KeepDotInStack = FALSE
 INVARIANTS TypeOK CaseOut
 CHECK_DEADLOCK FALSE
